@@ -424,6 +424,9 @@ RULE = ("list_kernels: odd weight lists of length 1..7 (asymmetric, symmetric, i
         "Non-trivial: the filter changes at least one value of the signal and the case involves NaN, a filtered boundary or a window "
         "of length >= 3; a window with >= 2 positive weights.  Distinct = hash of the case.")
 
+# coverage-guided stage of the thorough tier (vt/fuzz.py): sub-check -> libFuzzer executions
+FUZZ = {'list_kernels': 10000}
+
 SUBCHECKS = [
     SubCheck("windows", body_window, enum=enum_windows, strategy=strat_windows, quick=400, thorough=8000, qshards=2, tshards=4),
     SubCheck("list_kernels", body_filter, strategy=strat_list, quick=8000, thorough=200000, qshards=7),
